@@ -7,10 +7,10 @@ META = {
     "technique": "Independent Lean reference codec for message sets v0/v1 and record batches v2 (Spec/RecordBatch: strict decoder + encoder, bitwise CRC-32/CRC-32C) with kernel-checked decode∘encode round-trip theorems; Lean models of kafka-go's writers (protocol writeToVersion2/1, Conn writeRecordBatch/writeRecord/writeMessage) proved to emit Spec-decodable bytes carrying the given records; reference-counted page LTS with a safety invariant over all op sequences; byte-level correspondence in both directions through a compiled Lean oracle (library-produced bytes decoded by the Spec; Spec-encoded layouts decoded by Client.Fetch, RecordSet.ReadFrom and Conn.ReadBatch).",
     "level_claimed": {
         "category": "proof",
-        "text": "Kernel-checked: varint/zig-zag/fixed-width round trips and sizes; Spec decode(encode x) = x for records, v2 frames, v0/v1 messages and whole record sets (any mix, any number of entries); the writer models produce exactly the Spec encoding of the given records (offset deltas 0..n-1, timestamp deltas ms(t)-ms(first), null ≠ empty, headers, order, computed sizes = actual lengths) incl. the Conn path's timestamp-delta formula (D6 counterexample for the old formula); page pool/refcount invariant for all op sequences. Tied to the code by byte-exact writer-model correspondence and by the two-direction byte correspondence over formats × codecs × splits × shapes. The READERS (readFromVersion1/2, messageSetReader, Batch) are tied by correspondence only (partial): no Lean model of the decoders is proved equal to the Spec decoder.",
+        "text": "Kernel-checked: varint/zig-zag/fixed-width round trips and sizes; Spec decode(encode x) = x for records, v2 frames, v0/v1 messages and whole record sets (any mix, any number of entries); the writer models produce exactly the Spec encoding of the given records (offset deltas 0..n-1, timestamp deltas ms(t)-ms(first), null ≠ empty, headers, order, computed sizes = actual lengths) incl. the Conn path's timestamp-delta formula (D6 counterexample for the old formula); page pool/refcount invariant for all op sequences. Tied to the code by byte-exact writer-model correspondence and by the two-direction byte correspondence over formats × codecs × splits × shapes. The Client.Fetch-path DECODER is modelled (Model/RecordReader: readFromVersion2/1, RecordSet.ReadFrom, RecordStream) and proved to return the reference decoder's records on every valid response of v2 batches + plain v0/v1 messages (decoders_agree_client), to hide control batches (control_hidden) and to surface nothing of a batch with a wrong CRC (bad_crc_yields_no_records); the model is also run by the oracle on every fetch case (incl. v1 wrappers) and compared with the real decoder. Header sizes, patch offsets, attribute masks, magic offset are regenerated from the Go sources (go/extract records → Gen/RecordConsts) and proved equal to the Spec layout (gen_consts_match_spec). PARTIAL: the Conn/Batch reader (message_reader.go) is tied by byte correspondence and by C02's token-level model only; v1 wrappers on the Client path at correspondence level.",
         "design_ref": "DESIGN.md §7 C05",
     },
-    "level_note": "Trusted: Lean kernel; propext/Classical.choice/Quot.sound; Spec/RecordBatch.lean is my transcription of the Kafka message-format documentation (no Kafka source in the sandbox); hash/crc32 and the compressors are not verified (CRC definitions validated against hash/crc32 on every run, codecs are property C16; compressed payloads are decompressed by the harness with the library codec and handed to the oracle); decoders tied by sampled correspondence only; the page LTS is tied to protocol/buffer.go by an observational concurrent test (keys/values stay intact while other decodes recycle pages), not by hooks; int32 wrap of sizes/counts not modelled (requests < 2 GiB); empty retained v2 batches and consecutive-empty-batch layouts belong to C02 (D4/D14) and are not generated here; compressed v0 wrappers are outside the property.",
+    "level_note": "Trusted: Lean kernel; propext/Classical.choice/Quot.sound; Spec/RecordBatch.lean is my transcription of the Kafka message-format documentation (no Kafka source in the sandbox); hash/crc32 and the compressors are not verified (CRC definitions validated against hash/crc32 on every run, codecs are property C16; compressed payloads are decompressed by the harness with the library codec and handed to the oracle); Conn-side decoder tied by sampled correspondence only (+ C02's token model); the page LTS is tied to protocol/buffer.go by an observational concurrent test (keys/values stay intact while other decodes recycle pages), not by hooks; int32 wrap of sizes/counts not modelled (requests < 2 GiB); empty retained v2 batches and consecutive-empty-batch layouts belong to C02 (D4/D14) and are not generated here; compressed v0 wrappers are outside the property.",
 }
 
 MODULE = "KafkaVerif.Props.C05"
@@ -25,6 +25,9 @@ def run(ctx):
         "v0 wrappers (compressed magic 0) not generated (outside the property); empty v2 batches not generated (C02: D4/D14)",
     ]
     broken = []
+    ok, log = ctx.extract("records", ["lean/KafkaVerif/Gen/RecordConsts.lean"])
+    if not ok:
+        broken.append({"kind": "obligation", "name": "translator go/extract records", "detail": log[-1500:]})
     res = ctx.prove(MODULE)
     if not res["ok"]:
         broken.append({"kind": "obligation", "theorems": res["failed"], "detail": res["reasons"][:10]})
@@ -56,7 +59,7 @@ def run(ctx):
             if prc != 0:
                 broken.append({"kind": "obligation", "name": "pages observational test crashed or raced", "detail": perr[-1500:]})
             dis += ctx.correspond(plines, orc, "protocol/buffer.go pages ↔ Model/Pages (observational)")
-    ctx.coverage["rule"] = ("produce: records (1..6, one case of 150) with null/empty/1..300 B/1..20 KB/64 KiB±1..200 000 B keys and values, 0..3 headers with null/empty values, "
+    ctx.coverage["rule"] = ("produce: kafka.Writer → writerRecords path added; on every path (proto, client, writer, conn) × v1/v2 × 5 codecs one 82-record batch in which every ordered pair of the 9 null/empty/non-empty key×value shapes is adjacent (Eulerian circuit); records (1..6, one case of 150) with null/empty/1..300 B/1..20 KB/64 KiB±1..200 000 B keys and values, 0..3 headers with null/empty values, "
                             "sub-millisecond non-monotone times (+ far apart, + the D6 shape) through protocol.RecordSet.WriteTo v1/v2, Client.Produce (Prepare+WriteRequest, api v2/3/7/8) and "
                             "Conn.WriteMessages / WriteCompressedMessages (produce v2/v3/v7 over net.Pipe) × codecs none/gzip/snappy/lz4/zstd; fetch: 1..4 entries per response out of v0 / v1 messages, "
                             "v1 wrappers (4 codecs, relative inner offsets), v2 batches (5 codecs, transactional, control, compaction gaps), base offsets 0/1/100/2^33, decoded by RecordSet.ReadFrom "
